@@ -4,13 +4,11 @@ package lib
 
 import (
 	"fmt"
-	"go/ast"
-	"go/token"
 	"go/types"
 
-	"cffverif/internal/astx"
 	"cffverif/internal/load"
 	"cffverif/internal/report"
+	"cffverif/internal/sched"
 )
 
 var Rules = []report.Rule{
@@ -25,187 +23,9 @@ func Run(repo *load.Repo, s *report.Sink) error {
 	if p == nil {
 		return fmt.Errorf("package cff not loaded")
 	}
-	info := p.TypesInfo
-	pos := func(n ast.Node) string { return repo.Rel(n.Pos()) }
-	// stack types
-	type stackT struct {
-		named *types.Named
-		iface *types.Named
-	}
-	var stacks []stackT
 	sc := p.Types.Scope()
-	for _, n := range sc.Names() {
-		tn, ok := sc.Lookup(n).(*types.TypeName)
-		if !ok {
-			continue
-		}
-		nt, ok := tn.Type().(*types.Named)
-		if !ok {
-			continue
-		}
-		sl, ok := nt.Underlying().(*types.Slice)
-		if !ok {
-			continue
-		}
-		el, ok := sl.Elem().(*types.Named)
-		if !ok {
-			continue
-		}
-		if it, ok := el.Underlying().(*types.Interface); ok && types.Implements(nt, it) {
-			stacks = append(stacks, stackT{nt, el})
-		}
-	}
-	s.SetFact("lib.stack_types", len(stacks))
-	for _, st := range stacks {
-		it := st.iface.Underlying().(*types.Interface)
-		for i := 0; i < it.NumMethods(); i++ {
-			m := it.Method(i)
-			fd := astx.FindFuncDecl(p.Syntax, st.named.Obj().Name(), m.Name())
-			key := fmt.Sprintf("%s.%s", st.named.Obj().Name(), m.Name())
-			if fd == nil {
-				s.Unk("L1", key, "", "method declaration not found")
-				continue
-			}
-			sig := m.Type().(*types.Signature)
-			recv := info.Defs[fd.Recv.List[0].Names[0]]
-			var params []types.Object
-			for _, f := range fd.Type.Params.List {
-				for _, nm := range f.Names {
-					params = append(params, info.Defs[nm])
-				}
-			}
-			if sig.Results().Len() == 0 {
-				// L1: forwarders
-				good := len(fd.Body.List) == 1
-				var why string
-				if good {
-					rs, ok := fd.Body.List[0].(*ast.RangeStmt)
-					good = ok && astx.IdentObj(info, rs.X) == recv && rs.Value != nil && len(rs.Body.List) == 1
-					if good {
-						ev := astx.IdentObj(info, rs.Value)
-						es, ok := rs.Body.List[0].(*ast.ExprStmt)
-						good = ok
-						if good {
-							call, ok := es.X.(*ast.CallExpr)
-							good = ok
-							if good {
-								se, ok := call.Fun.(*ast.SelectorExpr)
-								good = ok && astx.IdentObj(info, se.X) == ev && se.Sel.Name == m.Name() && len(call.Args) == len(params) && !call.Ellipsis.IsValid()
-								if ok && se.Sel.Name != m.Name() {
-									why = fmt.Sprintf("forwards to %s instead of %s", se.Sel.Name, m.Name())
-								}
-								for i := 0; good && i < len(params); i++ {
-									if astx.IdentObj(info, call.Args[i]) != params[i] {
-										good = false
-										why = fmt.Sprintf("argument %d is not parameter %d", i, i)
-									}
-								}
-							}
-						}
-					}
-				}
-				if why == "" {
-					why = "body is not exactly `for _, e := range recv { e." + m.Name() + "(params...) }`"
-				}
-				s.Check(good, "L1", key, pos(fd), "forwards once to every element with all arguments", "stack method "+key+": "+why+": a stacked emitter would miss, double or receive altered events")
-				continue
-			}
-			// L2: XInit on the emitter stack
-			key2 := key
-			var made types.Object
-			var rng *ast.RangeStmt
-			var ret *ast.ReturnStmt
-			good := len(fd.Body.List) == 3
-			if good {
-				as, ok1 := fd.Body.List[0].(*ast.AssignStmt)
-				r, ok2 := fd.Body.List[1].(*ast.RangeStmt)
-				rt, ok3 := fd.Body.List[2].(*ast.ReturnStmt)
-				good = ok1 && ok2 && ok3 && len(as.Lhs) == 1 && len(as.Rhs) == 1
-				if good {
-					made, rng, ret = astx.IdentObj(info, as.Lhs[0]), r, rt
-					mk, ok := as.Rhs[0].(*ast.CallExpr)
-					good = ok && astx.IsBuiltin(info, mk, "make") && astx.IdentObj(info, rng.X) == recv && len(ret.Results) == 1 && astx.IdentObj(info, ret.Results[0]) == made && len(rng.Body.List) == 1
-					if good {
-						// either append form (len 0) or index form (len = len(recv))
-						st0, ok := rng.Body.List[0].(*ast.AssignStmt)
-						good = ok && len(st0.Lhs) == 1 && len(st0.Rhs) == 1
-						if good {
-							var inner *ast.CallExpr
-							ev := astx.IdentObj(info, rng.Value)
-							switch l := st0.Lhs[0].(type) {
-							case *ast.Ident:
-								ap, ok := st0.Rhs[0].(*ast.CallExpr)
-								good = ok && astx.IsBuiltin(info, ap, "append") && len(ap.Args) == 2 && astx.IdentObj(info, ap.Args[0]) == made && astx.ObjOf(info, l) == made && len(mk.Args) >= 2 && astx.IsIntConst(info, mk.Args[1], 0)
-								if good {
-									inner, _ = ap.Args[1].(*ast.CallExpr)
-								}
-							case *ast.IndexExpr:
-								good = astx.IdentObj(info, l.X) == made && rng.Key != nil && astx.IdentObj(info, l.Index) == astx.IdentObj(info, rng.Key) && len(mk.Args) == 2 && isLenOf(info, mk.Args[1], recv)
-								inner, _ = st0.Rhs[0].(*ast.CallExpr)
-							default:
-								good = false
-							}
-							if good {
-								se, ok := inner.Fun.(*ast.SelectorExpr)
-								good = inner != nil && ok && astx.IdentObj(info, se.X) == ev && se.Sel.Name == m.Name() && len(inner.Args) == len(params)
-								for i := 0; good && i < len(params); i++ {
-									if astx.IdentObj(info, inner.Args[i]) != params[i] {
-										good = false
-									}
-								}
-							}
-						}
-					}
-				}
-			}
-			s.Check(good, "L2", key2, pos(fd), "one e."+m.Name()+"(args) per element, collected in order", "stack "+key2+" does not build exactly one initialised emitter per stacked emitter with the same arguments")
-		}
-	}
-	// L3 EmitterStack
-	if fd := astx.FindFuncDecl(p.Syntax, "", "EmitterStack"); fd != nil {
-		var param types.Object
-		if len(fd.Type.Params.List) == 1 && len(fd.Type.Params.List[0].Names) == 1 {
-			param = info.Defs[fd.Type.Params.List[0].Names[0]]
-		}
-		var sw *ast.SwitchStmt
-		if len(fd.Body.List) == 1 {
-			sw, _ = fd.Body.List[0].(*ast.SwitchStmt)
-		}
-		ok0, ok1, okN := false, false, false
-		if sw != nil && param != nil {
-			if c, ok := sw.Tag.(*ast.CallExpr); ok && isLenOf(info, c, param) {
-				for _, cl := range sw.Body.List {
-					cc := cl.(*ast.CaseClause)
-					switch {
-					case len(cc.List) == 1 && astx.IsIntConst(info, cc.List[0], 0):
-						if len(cc.Body) == 1 {
-							if r, ok := cc.Body[0].(*ast.ReturnStmt); ok && len(r.Results) == 1 {
-								if call, ok := r.Results[0].(*ast.CallExpr); ok {
-									if fn := astx.Callee(info, call); fn != nil && fn.Name() == "NopEmitter" {
-										ok0 = true
-									}
-								}
-							}
-						}
-					case len(cc.List) == 1 && astx.IsIntConst(info, cc.List[0], 1):
-						if len(cc.Body) == 1 {
-							if r, ok := cc.Body[0].(*ast.ReturnStmt); ok && len(r.Results) == 1 {
-								if ix, ok := r.Results[0].(*ast.IndexExpr); ok && astx.IdentObj(info, ix.X) == param && astx.IsIntConst(info, ix.Index, 0) {
-									ok1 = true
-								}
-							}
-						}
-					case cc.List == nil:
-						okN = checkSplice(info, cc.Body, param)
-					}
-				}
-			}
-		}
-		s.Check(ok0, "L3", "EmitterStack|no emitters -> NopEmitter()", pos(fd), "", "EmitterStack() does not return the no-op emitter")
-		s.Check(ok1, "L3", "EmitterStack|one emitter -> that emitter", pos(fd), "", "EmitterStack(e) does not return e itself")
-		s.Check(okN, "L3", "EmitterStack|n emitters -> each exactly once, nested stacks spliced", pos(fd), "", "EmitterStack drops, duplicates or fails to flatten an argument: a stacked emitter receives too few or too many events")
-	} else {
-		s.Unk("L3", "EmitterStack", "", "function not found")
+	if err := sched.RunStacks(repo, s); err != nil {
+		return err
 	}
 	// L4
 	if pe, ok := sc.Lookup("PanicError").(*types.TypeName); ok {
@@ -226,58 +46,4 @@ func Run(repo *load.Repo, s *report.Sink) error {
 		s.Unk("L4", "PanicError", "", "type not found")
 	}
 	return nil
-}
-
-func isLenOf(info *types.Info, e ast.Expr, obj types.Object) bool {
-	c, ok := astx.Unparen(e).(*ast.CallExpr)
-	return ok && astx.IsBuiltin(info, c, "len") && len(c.Args) == 1 && astx.IdentObj(info, c.Args[0]) == obj
-}
-
-// checkSplice: var stack T; for _, e := range param { if s, ok := e.(T); ok { stack = append(stack, s...) } else { stack = append(stack, e) } }; return stack
-func checkSplice(info *types.Info, body []ast.Stmt, param types.Object) bool {
-	if len(body) != 3 {
-		return false
-	}
-	ds, ok1 := body[0].(*ast.DeclStmt)
-	rs, ok2 := body[1].(*ast.RangeStmt)
-	ret, ok3 := body[2].(*ast.ReturnStmt)
-	if !ok1 || !ok2 || !ok3 || astx.IdentObj(info, rs.X) != param || rs.Value == nil || len(ret.Results) != 1 {
-		return false
-	}
-	var stack types.Object
-	if gd, ok := ds.Decl.(*ast.GenDecl); ok && gd.Tok == token.VAR && len(gd.Specs) == 1 {
-		if vs, ok := gd.Specs[0].(*ast.ValueSpec); ok && len(vs.Names) == 1 && len(vs.Values) == 0 {
-			stack = info.Defs[vs.Names[0]]
-		}
-	}
-	if stack == nil || astx.IdentObj(info, ret.Results[0]) != stack {
-		return false
-	}
-	ev := astx.IdentObj(info, rs.Value)
-	isAppend := func(st ast.Stmt, arg types.Object, ellipsis bool) bool {
-		as, ok := st.(*ast.AssignStmt)
-		if !ok || len(as.Lhs) != 1 || len(as.Rhs) != 1 || astx.IdentObj(info, as.Lhs[0]) != stack {
-			return false
-		}
-		c, ok := as.Rhs[0].(*ast.CallExpr)
-		return ok && astx.IsBuiltin(info, c, "append") && len(c.Args) == 2 && astx.IdentObj(info, c.Args[0]) == stack && astx.IdentObj(info, c.Args[1]) == arg && c.Ellipsis.IsValid() == ellipsis
-	}
-	if len(rs.Body.List) != 1 {
-		return false
-	}
-	is, ok := rs.Body.List[0].(*ast.IfStmt)
-	if !ok || is.Else == nil || is.Init == nil || len(is.Body.List) != 1 {
-		return false
-	}
-	init, ok := is.Init.(*ast.AssignStmt)
-	if !ok || len(init.Lhs) != 2 || len(init.Rhs) != 1 {
-		return false
-	}
-	ta, ok := init.Rhs[0].(*ast.TypeAssertExpr)
-	if !ok || astx.IdentObj(info, ta.X) != ev || astx.IdentObj(info, is.Cond) != astx.IdentObj(info, init.Lhs[1]) {
-		return false
-	}
-	sv := astx.IdentObj(info, init.Lhs[0])
-	eb, ok := is.Else.(*ast.BlockStmt)
-	return ok && len(eb.List) == 1 && isAppend(is.Body.List[0], sv, true) && isAppend(eb.List[0], ev, false)
 }
